@@ -67,6 +67,7 @@ type PointAct struct {
 	G   int    `json:"g"`
 	Nth int    `json:"nth"`
 	Act string `json:"act"` // "gc2" or "yield"
+	To  int    `json:"to,omitempty"` // yield: let the owner of step To run ahead through that step
 }
 
 type Violation struct {
